@@ -742,6 +742,95 @@ fn drops_while_unwinding(cx: &mut Ctx) {
     }
 }
 
+/// Connection's own operation: the three methods of the opening handshake are built from
+/// `ConnectionOptions`, and every field must equal the argument given to the builder that sets
+/// it - whatever the order in which the builders were called (all 8! orders of the eight
+/// builders, each with a non-default value).
+fn connection_options_builders(cx: &mut Ctx) {
+    use amiquip::verif::probe::{open, options_view, start_ok, tune_ok};
+    use amiquip::{Auth, ConnectionOptions};
+    use amq_protocol::protocol::connection::{Start, Tune};
+    use amq_protocol::types::AMQPValue;
+    let op = "Connection::open(options)";
+    let n = 8usize;
+    // Heap's algorithm over the builder indices
+    let mut perm: Vec<usize> = (0..n).collect();
+    let mut c = vec![0usize; n];
+    let mut orders: Vec<Vec<usize>> = vec![perm.clone()];
+    let mut i = 0;
+    while i < n {
+        if c[i] < i {
+            if i % 2 == 0 {
+                perm.swap(0, i);
+            } else {
+                perm.swap(c[i], i);
+            }
+            orders.push(perm.clone());
+            c[i] += 1;
+            i = 0;
+        } else {
+            c[i] = 0;
+            i += 1;
+        }
+    }
+    let names = ["auth", "virtual_host", "locale", "channel_max", "frame_max", "heartbeat", "connection_timeout", "information"];
+    let mut reported = std::collections::BTreeSet::new();
+    for order in &orders {
+        progress(op);
+        cx.part.evaluations += 1;
+        cx.part.distinct_nontrivial += 1;
+        let mut o: ConnectionOptions<Auth> = ConnectionOptions::default();
+        for b in order {
+            o = match b {
+                0 => o.auth(Auth::Plain { username: "alice".into(), password: "s3cret".into() }),
+                1 => o.virtual_host("orders"),
+                2 => o.locale("de_DE"),
+                3 => o.channel_max(77),
+                4 => o.frame_max(8192),
+                5 => o.heartbeat(13),
+                6 => o.connection_timeout(Some(std::time::Duration::from_millis(4321))),
+                _ => o.information(Some("billing worker".into())),
+            };
+        }
+        let mut wrong: Vec<String> = Vec::new();
+        let start = Start { version_major: 0, version_minor: 9, server_properties: Default::default(), mechanisms: "AMQPLAIN PLAIN EXTERNAL".into(), locales: "en_US de_DE".into() };
+        match start_ok(&o, start) {
+            Ok((ok, _)) => {
+                if ok.mechanism != "PLAIN" || ok.response != "\u{0}alice\u{0}s3cret" {
+                    wrong.push(format!("StartOk mechanism/response {:?}/{:?}", ok.mechanism, ok.response));
+                }
+                if ok.locale != "de_DE" {
+                    wrong.push(format!("StartOk locale {:?}", ok.locale));
+                }
+                if ok.client_properties.get("information") != Some(&AMQPValue::LongString("billing worker".into())) {
+                    wrong.push(format!("StartOk information {:?}", ok.client_properties.get("information")));
+                }
+            }
+            Err(e) => wrong.push(format!("StartOk not built: {:?}", e)),
+        }
+        match tune_ok(&o, Tune { channel_max: 2047, frame_max: 131072, heartbeat: 60 }) {
+            Ok(t) if (t.channel_max, t.frame_max, t.heartbeat) == (77, 8192, 13) => {}
+            other => wrong.push(format!("TuneOk {:?}", other.map(|t| (t.channel_max, t.frame_max, t.heartbeat)))),
+        }
+        let open = open(&o);
+        if open.virtual_host != "orders" {
+            wrong.push(format!("Open virtual_host {:?}", open.virtual_host));
+        }
+        if options_view(&o).connection_timeout != Some(std::time::Duration::from_millis(4321)) {
+            wrong.push(format!("connection_timeout {:?}", options_view(&o).connection_timeout));
+        }
+        if !wrong.is_empty() {
+            let called: Vec<&str> = order.iter().map(|b| names[*b]).collect();
+            // one report per (last builder called, what is wrong): 40320 orders share few causes
+            let key = format!("{}|{}", called.last().unwrap(), wrong.join(";"));
+            if reported.insert(key) && reported.len() <= 6 {
+                cx.part.violation(&format!("api:{}:wrong-field", op), format!("builders called in the order {:?}: {}", called, wrong.join("; ")), json!({"engine":"seqx","check":"api","op":op,"args":{"order":called}}));
+            }
+        }
+    }
+    cx.part.outcome(op);
+}
+
 fn run_inner(args: &Args) {
     std::panic::set_hook(Box::new(|_| {}));
     let chan = 5u16;
@@ -753,6 +842,7 @@ fn run_inner(args: &Args) {
     run_table(&mut cx, &ch);
     cross_channel_handles(&mut cx, &ch);
     drops_while_unwinding(&mut cx);
+    connection_options_builders(&mut cx);
     // Channel::close
     cx.preload_method(AMQPClass::Channel(channel::AMQPMethod::CloseOk(channel::CloseOk {})));
     let r = ch.close();
